@@ -174,48 +174,6 @@ def input_provenance(repo, tier):
     def P(oid, ok, why, rel):
         obls.append(ground_obligation(oid, bool(ok), why, rel, definite=False))
 
-    def site(rel, qual, call_pred, label, sources=(), attr_sources=(), want_atoms=()):
-        m = loader.module(rel, repo)
-        short = rel.split("/")[-1]
-        oid = f"C17/{short}::{qual}/call-site#{label}"
-        fn = m.functions.get(qual)
-        if fn is None:
-            return P(oid, False, f"{qual} missing", rel)
-        calls = [c for c in ast.walk(fn) if isinstance(c, ast.Call) and call_pred(c)]
-        if len(calls) != 1 or not calls[0].args:
-            return P(oid, False, f"{len(calls)} matching call(s)", rel)
-        pv = Prov(fn, sources, attr_sources)
-        pv.run(calls[0].args[0])
-        missing = [a for a in want_atoms if not any(x.startswith(a) for x in pv.atoms)]
-        P(oid, not pv.problems and not missing, f"from {sorted(set(pv.atoms))}" + (f"; problems: {pv.problems}" if pv.problems else "")
-          + (f"; missing source {missing}" if missing else ""), rel)
-        fns.append(dict(m.fn_info(qual), obligations=1))
-
-    def feed_of(cls):
-        def pred(c):
-            return isinstance(c.func, ast.Attribute) and c.func.attr == "feed"
-        return pred
-
-    site(HTML, "read_html", feed_of(HCLS), "parser-is-fed-the-decoded-document-unmodified", want_atoms=("param file_like",))
-    site(MSG, "_html_to_text", feed_of(HCLS), "parser-is-fed-the-body-unmodified", want_atoms=("param html_text",))
-    site(EPUB, "_extract_chapter", feed_of(ECLS), "parser-is-fed-the-content-document-unmodified", want_atoms=("param ctx",))
-    site(MHTML, "read_mhtml", lambda c: dotted(c.func) == "read_html", "read_html-gets-the-html-part-unmodified",
-         sources=("_extract_from_mhtml",), want_atoms=("source _extract_from_mhtml", "param file_like"))
-
-    # the converter never hands the markup itself back as "text" (e.g. from an except-branch fallback): its parameter is
-    # used for nothing but feeding the parser
-    m = loader.module(MSG, repo)
-    fn = m.functions.get("_html_to_text")
-    oid = "C17/msg_email_extractor.py::_html_to_text/call-site#the-markup-itself-is-never-returned-as-text"
-    if fn is None or not fn.args.args:
-        P(oid, False, "_html_to_text missing", MSG)
-    else:
-        param = fn.args.args[0].arg
-        feeds = [c for c in ast.walk(fn) if isinstance(c, ast.Call) and isinstance(c.func, ast.Attribute) and c.func.attr == "feed"]
-        fed = {id(a) for c in feeds for a in c.args}
-        other = sorted(f"line {n.lineno}" for n in ast.walk(fn) if isinstance(n, ast.Name) and n.id == param and id(n) not in fed)
-        P(oid, len(feeds) == 1 and not other, f"`{param}` is also used at {other}" if other else "only use: parser.feed", MSG)
-
     # MSG routing: `if _looks_like_html(B): body_plain = _html_to_text(B)` with B the message body itself
     m = loader.module(MSG, repo)
     fn = m.functions.get("read_msg_format_mail")
